@@ -36,6 +36,7 @@ type fabric struct {
 	net     *meshsender.Net
 	words   map[uint32]string
 	survey  bool
+	k       int // depth inflation of the world that uses the fabric (routes are reported in model words)
 	pumping int32
 	stop    chan struct{}
 	done    sync.WaitGroup
@@ -234,7 +235,25 @@ func (f *fabric) ssidWords(s message.Ssid, contract uint32) []string {
 		}
 		i = 2
 	}
-	for ; i < len(s); i++ {
+	step := 1
+	if f.k > 1 {
+		step = f.k
+	}
+	first := true
+	for ; i < len(s); i += step {
+		if first && (s[i] == contract) {
+			// the contract level is not inflated
+			w = append(w, "ct")
+			i -= step - 1
+			first = false
+			continue
+		}
+		first = false
+		if s[i] == 4285801373 { // '#': never inflated
+			w = append(w, "#")
+			i -= step - 1
+			continue
+		}
 		switch {
 		case s[i] == contract && (i == 0 || i == 2 && len(w) == 2):
 			w = append(w, "ct")
